@@ -244,7 +244,7 @@ def fn_matches(s: str, p: str, flag: str, version: str, ver: str = '1.0'):
     return r
 
 
-def tlc_batch(jobs):
+def tlc_batch(jobs, tier: str = 'quick'):
     """jobs: (key, module, constants, invariants, workdir).  Runs the TLC models TLC_PAR at a time;
     returns key -> (TLCResult, dot path).  A failed run is a machinery failure."""
     from concurrent.futures import ThreadPoolExecutor
@@ -252,10 +252,11 @@ def tlc_batch(jobs):
     def one(job):
         key, module, consts, invs, wd = job
         dot = os.path.join(wd, 'g.dot')
-        r = tla.run_tlc(module, tla.cfg_text(consts, spec='Spec', invariants=invs), wd, dump_dot=dot, workers=TLC_WORKERS)
+        r = tla.run_tlc(module, tla.cfg_text(consts, spec='Spec', invariants=invs), wd, dump_dot=dot,
+                        workers=TLC_WORKERS if tier == 'quick' else 2 * TLC_WORKERS)
         return key, r, dot
     out = {}
-    with ThreadPoolExecutor(max_workers=TLC_PAR) as ex:
+    with ThreadPoolExecutor(max_workers=TLC_PAR if tier == 'quick' else TLC_PAR // 2) as ex:
         for key, r, dot in ex.map(one, jobs):
             tla.require_ok(r, f'{key}')
             out[key] = (r, dot)
@@ -422,8 +423,8 @@ CLASS_CONFIGS = {
                               SubNames=set(), MaxItems=3, MaxSubItems=1), 16, 4),
         ('items11', '1.1', dict(ItemNames=ALL_ITEMS, ItemNames3={"a", "AS", "i", "I", "c", "C", "D", "d"},
                                 SubNames=set(), MaxItems=3, MaxSubItems=1), 16, 4),
-        ('sub', '1.0', dict(ItemNames={"a", "b", "5", "NL", "AS", "HY", "a-b", "5-A", "d", "D", "S", "W", "s", "pLu", "I", "C"},
-                            ItemNames3=set(), SubNames={"a", "5", "NL", "d", "D", "S", "W", "a-b", "PL"},
+        ('sub', '1.0', dict(ItemNames={"a", "b", "5", "NL", "AS", "HY", "a-b", "5-A", "d", "D", "S", "W", "s", "I"},
+                            ItemNames3=set(), SubNames={"a", "5", "d", "D", "S", "W", "a-b"},
                             MaxItems=2, MaxSubItems=2), 64, 8),
         ('sub11', '1.1', dict(ItemNames={"a", "AS", "5", "d", "D", "I", "C", "s"}, ItemNames3=set(),
                               SubNames={"a", "AS", "D", "i", "C"}, MaxItems=2, MaxSubItems=2), 32, 8),
@@ -440,7 +441,7 @@ def run_classes(chk: core.Check, totals: dict) -> None:
             jobs.append((f'RegexClass/{name}/{variant}', 'RegexClass', dict(XsdVersion=ver, Flag="", Variant=variant, **consts),
                          ['Laws', 'Refines'] if variant == 'fixed' else ['Laws'],
                          os.path.join(chk.scratch, f'class-{name}-{variant}')))
-    done = tlc_batch(jobs)
+    done = tlc_batch(jobs, chk.tier)
     for name, ver, consts, fn_mod, xsd_mod in CLASS_CONFIGS[chk.tier]:
         graphs = {}
         for variant in ('fixed', 'pinned'):
@@ -450,6 +451,8 @@ def run_classes(chk: core.Check, totals: dict) -> None:
             graphs[variant] = tla.load_dot(dot)
             os.remove(dot)
         g = graphs['fixed']
+        if consts['SubNames'] and not any(st['neg'] and st['sub'] and st['sub'][0]['neg'] for st in g.states.values()):
+            raise tla.MachineryError(f'RegexClass/{name}: DoubleNegLaw is vacuous (no [^..-[^..]] state)')
         pin = {class_key(st): (frozenset(st['ipos']) | (frozenset(SIGMA) - frozenset(st['ineg']))
                                if st['ineg'] else frozenset(st['ipos']))
                for st in graphs['pinned'].states.values()}
@@ -460,7 +463,7 @@ def run_classes(chk: core.Check, totals: dict) -> None:
         states.sort(key=lambda x: render_class(x[0]))
         t0 = time.time()
         jobs = [(ver, ch, fn_mod, xsd_mod) for ch in core.chunked(states, 64)]
-        collect(chk, core.pool_map(class_worker, jobs, procs=PROCS), totals)
+        collect(chk, core.pool_map(class_worker, jobs, procs=PROCS), totals, 'class')
         chk.add('transitions', len(g.edges))
         chk.add('traces_validated_against_impl', len(states))
         print(f'  RegexClass/{name}: states={len(g.states)} pinned-model-refuted={refuted} '
@@ -645,7 +648,7 @@ AST_CONFIGS = {
     ],
 }
 AST_CONFIGS['thorough'] = AST_CONFIGS['quick'][2:] + [
-    ('wide', '', '1.0', dict(AtomNames=WIDE_ATOMS, OperandNames={"a", "NL", "any", "d", "AS", "c_na", "W"}, OperandDepth=0,
+    ('wide', '', '1.0', dict(AtomNames=WIDE_ATOMS, OperandNames={"a", "NL", "any", "W"}, OperandDepth=0,
                              Unaries=ALL_UNARIES, Unaries2={"star", "opt", "rep12", "grp"}, Binaries={"cat", "alt"}, MaxDepth=2,
                              SubjChars=set(SIGMA), MaxLen=2), 64, False),
     ('deep', '', '1.0', dict(AtomNames={"a", "b", "any", "d", "c_na", "NL"}, OperandNames={"a", "b", "any", "d", "c_na", "NL"},
@@ -669,13 +672,16 @@ def subjects_of(consts) -> list:
 def run_asts(chk: core.Check, totals: dict) -> None:
     done = tlc_batch([(f'RegexAst/{name}', 'RegexAst', dict(XsdVersion=ver, Flag=flag, **consts),
                        ['Laws'] + (['SearchLaw'] if search_law else []), os.path.join(chk.scratch, f'ast-{name}'))
-                      for name, flag, ver, consts, fn_mod, search_law in AST_CONFIGS[chk.tier]])
+                      for name, flag, ver, consts, fn_mod, search_law in AST_CONFIGS[chk.tier]], chk.tier)
     for name, flag, ver, consts, fn_mod, search_law in AST_CONFIGS[chk.tier]:
         r, dot = done[f'RegexAst/{name}']
         chk.model(f'RegexAst/{name}', r)
         g = tla.load_dot(dot)
         os.remove(dot)
         subjects = subjects_of(consts)
+        tops = {st['r']['t'] for st in g.states.values()}
+        if ('dup' in consts['Unaries'] and 'dup' not in tops) or not ({'cat', 'alt'} & tops):
+            raise tla.MachineryError(f'RegexAst/{name}: laws are vacuous, top-level node types reached: {sorted(tops)}')
         states = [(st['r'], frozenset(st['full']), frozenset(st['found'])) for st in g.states.values()]
         states.sort(key=lambda x: (depth(x[0]), render(x[0])))
         t0 = time.time()
@@ -694,7 +700,7 @@ def run_asts(chk: core.Check, totals: dict) -> None:
             bag.fail(feat, case, e, o, f"{case['pattern']!r} flag={flag!r} {mode}/{which}: should match {e}, "
                                        f"should not match {o}" if not isinstance(o, list) or d in
                      ('accepts_too_much', 'rejects_too_much', 'both') else f"{case['pattern']!r} {mode}: {o}")
-        collect(chk, [(res[0], [], res[2], res[3], res[4]) for res in results] + [bag.result()], totals)
+        collect(chk, [(res[0], [], res[2], res[3], res[4]) for res in results] + [bag.result()], totals, 'ast')
         chk.add('transitions', len(g.edges))
         chk.add('traces_validated_against_impl', len(states))
         print(f'  RegexAst/{name}: states={len(g.states)} edges={len(g.edges)} tlc={r.wall_s:.1f}s '
@@ -725,7 +731,7 @@ def fns_worker(job):
 
         def bad(fn, law, version, expected, observed, what):
             out = ':'.join(map(str, observed)) if isinstance(observed, tuple) and observed and observed[0] in ('err', 'escaped') else 'value'
-            bag.fail(dict(base, fn=fn, law=law, outcome=out), dict(case0, fn=fn, parser=version), expected, observed, what)
+            bag.fail(dict(base, fn=fn, law=law, outcome=out), dict(case0, fn=fn, law=law, parser=version), expected, observed, what)
 
         versions = ('3.1', '2.0') if h % 4 == 0 else ('3.1',)
         for version in versions:
@@ -799,7 +805,7 @@ def fns_worker(job):
 FNS_CONFIGS = {
     'quick': [
         ('d1', '', dict(PatAtoms={"a", "b", "any", "d", "c_na", "NL"}, PatUnaries={"star", "plus", "opt", "rep2", "grp", "dup"},
-                        PatBinaries={"cat", "alt"}, PatDepth=1, SubjChars={1, 4, 7, 8}, MaxLen=3)),
+                        PatBinaries={"cat", "alt"}, PatDepth=1, SubjChars={1, 4, 7}, MaxLen=3)),
         ('groups', '', dict(PatAtoms={"a", "b"}, PatUnaries={"plus", "grp"}, PatBinaries={"cat", "alt"}, PatDepth=2,
                             SubjChars={1, 7, 8}, MaxLen=3)),
         ('anchors', '', dict(PatAtoms={"a", "NL", "bol", "eol"}, PatUnaries={"plus", "opt"}, PatBinaries={"cat", "alt"},
@@ -821,17 +827,19 @@ FNS_CONFIGS['thorough'] = FNS_CONFIGS['quick'] + [
 
 def run_fns(chk: core.Check, totals: dict) -> None:
     done = tlc_batch([(f'RegexFns/{name}', 'RegexFns', dict(XsdVersion='1.0', Flag=flag, **consts), ['Laws'],
-                       os.path.join(chk.scratch, f'fns-{name}')) for name, flag, consts in FNS_CONFIGS[chk.tier]])
+                       os.path.join(chk.scratch, f'fns-{name}')) for name, flag, consts in FNS_CONFIGS[chk.tier]], chk.tier)
     for name, flag, consts in FNS_CONFIGS[chk.tier]:
         r, dot = done[f'RegexFns/{name}']
         chk.model(f'RegexFns/{name}', r)
         g = tla.load_dot(dot)
         os.remove(dot)
         states = [(st['r'], st['s'], st['nullable'], st['found'], tuple(st['adm'])) for st in g.states.values()]
+        if not any(x[2] for x in states) or not any(len(x[4]) > 1 for x in states) or not any(not x[3] for x in states):
+            raise tla.MachineryError(f'RegexFns/{name}: vacuous (no nullable pattern, no ambiguous partition or no non-match)')
         states.sort(key=lambda x: (render(x[0]), x[1]))
         t0 = time.time()
         jobs = [(flag, '1.0', states[k::48]) for k in range(48)]
-        collect(chk, core.pool_map(fns_worker, [j for j in jobs if j[2]], procs=PROCS), totals)
+        collect(chk, core.pool_map(fns_worker, [j for j in jobs if j[2]], procs=PROCS), totals, 'fns')
         chk.add('transitions', len(g.edges))
         chk.add('traces_validated_against_impl', len(g.edges))
         print(f'  RegexFns/{name}: states={len(g.states)} edges={len(g.edges)} tlc={r.wall_s:.1f}s '
@@ -916,6 +924,7 @@ ALL_TOKENS = {"a", "-", "^", "$", ".", "*", "?", "+", "{2}", "{1,2}", "{2,1}", "
               "[", "]", "%d", "%-", "%n", "%p{L}", "%1", "%e", "%f"}
 CLS_TOKENS = {"a", "-", "^", "]", "[", "%d", "%-", "*", "("}
 XP_TOKENS = {"a", "*", "?", "{2}", "(", ")", "|", "%1", "^", "[", "]", "(?:"}
+XP_TOKENS_Q = {"a", "*", "?", "{2}", "(", ")", "|", "%1", "[", "]"}
 Q_TOKENS = {"a", ".", "*", "?", "(", "[", "]", "|", "^"}
 
 SYNTAX_CONFIGS = {
@@ -924,7 +933,7 @@ SYNTAX_CONFIGS = {
         ('xp3-all3', 'xp3', '1.0', ALL_TOKENS, ALL_TOKENS, 3, True),
         ('xsd-all3', 'xsd', '1.0', ALL_TOKENS, ALL_TOKENS, 3, False),
         ('xp2-all2', 'xp2', '1.1', ALL_TOKENS, ALL_TOKENS, 2, True),
-        ('xp3-4', 'xp3', '1.0', XP_TOKENS, XP_TOKENS, 4, True),
+        ('xp3-4', 'xp3', '1.0', XP_TOKENS_Q, XP_TOKENS_Q, 4, True),
         ('xsd-cls5', 'xsd', '1.0', CLS_TOKENS, {"["}, 5, False),
         ('xp3-cls5-11', 'xp3', '1.1', CLS_TOKENS, {"["}, 5, True),
     ],
@@ -933,7 +942,8 @@ SYNTAX_CONFIGS = {
         ('xp2-all3', 'xp2', '1.0', ALL_TOKENS, ALL_TOKENS, 3, True),
         ('xsd-all3', 'xsd', '1.0', ALL_TOKENS, ALL_TOKENS, 3, False),
         ('xsd11-all3', 'xsd', '1.1', ALL_TOKENS, ALL_TOKENS, 3, False),
-        ('xp3-5', 'xp3', '1.0', XP_TOKENS, XP_TOKENS, 5, True),
+        ('xp3-5', 'xp3', '1.0', XP_TOKENS_Q, XP_TOKENS_Q, 5, True),
+        ('xp3-4', 'xp3', '1.0', XP_TOKENS | {"$", "+"}, XP_TOKENS | {"$", "+"}, 4, True),
         ('xsd-4', 'xsd', '1.0', XP_TOKENS | {"-", "%d", "{2,1}", "."}, XP_TOKENS | {"-", "%d", "{2,1}", "."}, 4, False),
         ('xsd-cls6', 'xsd', '1.0', CLS_TOKENS, {"["}, 6, False),
         ('xp3-cls6', 'xp3', '1.0', CLS_TOKENS, {"["}, 6, True),
@@ -949,7 +959,7 @@ def run_syntax(chk: core.Check, totals: dict) -> None:
             for name, mode, ver, tokens, first, n, do_fn in SYNTAX_CONFIGS[chk.tier]]
     jobs.append(('RegexSyntax/q', 'RegexSyntax', dict(Tokens=Q_TOKENS, First=Q_TOKENS, MaxToks=nq, Mode='xp3', XsdVersion='1.0'),
                  ['Laws'], os.path.join(chk.scratch, 'syn-q')))
-    done = tlc_batch(jobs)
+    done = tlc_batch(jobs, chk.tier)
     for name, mode, ver, tokens, first, n, do_fn in SYNTAX_CONFIGS[chk.tier]:
         r, dot = done[f'RegexSyntax/{name}']
         chk.model(f'RegexSyntax/{name}', r)
@@ -987,7 +997,7 @@ def run_syntax(chk: core.Check, totals: dict) -> None:
     print(f'  RegexSyntax/q: states={len(g.states)} pairs={len(pairs)}', flush=True)
 
 
-def collect(chk: core.Check, results, totals: dict) -> None:
+def collect(chk: core.Check, results, totals: dict, part: str = '') -> None:
     for stats, fails, odis, n_odis, samples in results:
         for k, v in stats.items():
             if k in ('evaluations', 'second_oracle_evaluations'):
@@ -1000,7 +1010,9 @@ def collect(chk: core.Check, results, totals: dict) -> None:
         for d in odis:
             totals.setdefault('oracle_examples', []).append(d)
         for sm in samples:
-            chk.sample(sm)
+            if totals.get('_samples_' + part, 0) < 3:
+                totals['_samples_' + part] = totals.get('_samples_' + part, 0) + 1
+                chk.sample(sm)
         for feat, cnt, case, exp, obs, what in fails:
             chk.fail(feat, case, exp, obs, what=what)
             if cnt > 1:
@@ -1033,7 +1045,6 @@ def replay_case(case: dict):
         bad = any(obs[x] is not True for x in case['should_match']) or any(obs[x] is not False for x in case['should_not_match'])
         return bad, obs
     if kind == 'syntax':
-        states = [(tuple(), True, '')]
         from elementpath.regex import translate_pattern, RegexError
         xp = case['mode'] != 'xsd'
         if case['stage'] == 'fn:matches':
@@ -1050,36 +1061,53 @@ def replay_case(case: dict):
         return None, fn_matches(case['subject'], case['pattern'], 'q', '3.1')
     if kind == 'fns':
         v, p, t, f, ver = case['parser'], case['pattern'], case['subject'], case['flag'], case['xsd_version']
-        fn = case['fn']
+        fn, law, exp = case['fn'], case.get('law'), case.get('_expected')
+
+        def is_err(x):
+            return isinstance(x, tuple) and len(x) > 0 and x[0] in ('err', 'escaped')
         if fn == 'matches':
-            return None, fn_matches(t, p, f, v, ver)
+            r = fn_matches(t, p, f, v, ver)
+            return r is not exp, r
         if fn == 'tokenize':
             r = xpath_call('tokenize($s,$p,$f)', v, ver, s=t, p=p, f=f)
-            return None, r if isinstance(r, tuple) else list(as_list(r))
+            if law == 'nullable-error':
+                return not (is_err(r) and r[0] == 'err'), r
+            r = r if is_err(r) else list(as_list(r))
+            return r not in exp, r
         if fn == 'replace':
-            return None, [xpath_call("replace($s,$p,'$0',$f)", v, ver, s=t, p=p, f=f),
-                          xpath_call("replace($s,$p,'X',$f)", v, ver, s=t, p=p, f=f)]
-        return None, xpath_call('for $e in analyze-string($s,$p,$f)/* return (local-name($e), string($e))', v, ver, s=t, p=p, f=f)
+            r = xpath_call("replace($s,$p,'%s',$f)" % ('X' if law == 'join' else '$0'), v, ver, s=t, p=p, f=f)
+            if law == 'nullable-error':
+                return not (is_err(r) and r[0] == 'err'), r
+            r = r[0] if isinstance(r, list) and len(r) == 1 else r
+            return (r not in exp) if law == 'join' else (r != t), r
+        r = xpath_call('for $e in analyze-string($s,$p,$f)/* return (local-name($e), string($e))', v, ver, s=t, p=p, f=f)
+        if law == 'nullable-error':
+            return not (is_err(r) and r[0] == 'err'), r
+        if is_err(r):
+            return True, r
+        r = as_list(r)
+        pos, parts = 0, []
+        for k, x in zip(r[0::2], r[1::2]):
+            parts.append(['m' if k == 'match' else 'n', pos, pos + len(x)])
+            pos += len(x)
+        if law == 'concat':
+            return ''.join(r[1::2]) != t, r
+        return parts not in exp, parts
     raise tla.MachineryError(f'unknown case kind {kind!r}')
 
 
 def replay(rec: dict) -> int:
     core.setup_repo_path()
-    case = rec['case']
+    case = dict(rec['case'], _expected=rec['expected'])
     bad, obs = replay_case(case)
+    case.pop('_expected')
     print('case     :', case)
     print('what     :', rec.get('what'))
     print('expected :', rec['expected'])
     print('recorded :', rec['observed'])
     print('observed :', obs)
     if bad is None:
-        # the recorded observation was a violation: it still is one if it is reproduced unchanged
-        o = core.jsonable(obs)
-        r = rec['observed']
-        if case['kind'] == 'fns' and case['fn'] == 'replace':
-            bad = r in o or r == o
-        else:
-            bad = (o == r) or (o != rec['expected'] and case['kind'] in ('syntax', 'q'))
+        bad = core.jsonable(obs) != rec['expected']      # syntax / q cases: expected outcome recorded verbatim
     if bad:
         print('VIOLATION property=C12 replay=(replayed)')
         return 1
@@ -1109,7 +1137,7 @@ def run(chk: core.Check) -> None:
         run_fns(chk, totals)
     if 'syntax' in parts:
         run_syntax(chk, totals)
-    chk.coverage['details'] = {k: (round(v, 1) if isinstance(v, float) else v) for k, v in totals.items() if k != 'oracle_examples'}
+    chk.coverage['details'] = {k: (round(v, 1) if isinstance(v, float) else v) for k, v in totals.items() if k != 'oracle_examples' and not k.startswith('_')}
     chk.coverage['configs'] = {
         'RegexClass': [dict(name=n, xsd_version=v, **{k: (sorted(x) if isinstance(x, set) else x) for k, x in c.items()})
                        for n, v, c, _, _ in CLASS_CONFIGS[chk.tier]],
